@@ -555,6 +555,63 @@ def session_oracle(case, cancel, o):
     return []
 
 
+def close_family(ctx, res, only=None):
+    """Oracle only: a task is inside `session.close(force_after)` of a REAL transport protocol
+    (RSTransport / USTransport on the scripted fake transport) - alone or nested in a
+    `timeout_after` block of its own - when `task.cancel()` is called on it.  `close()` itself is a
+    nest of the library's timeout blocks (the forced abort after `force_after`), so the text
+    applies: the task ends cancelled, whether the graceful close is still pending (stalled peer:
+    the cancel lands inside close()) or already over (the cancel lands in the follow-on code)."""
+    from harness.rig import Rig
+    from harness import c08_world as W8
+    cases = [dict(transport=tp, stalled=st, outer=outer, fa=fa, cancel=c)
+             for tp in ('rs', 'us') for st in (True, False) for outer in (None, 12)
+             for fa in (6, 30) for c in (1, 3, 5)]
+    if only is not None:
+        cases = [only]
+    for case in cases:
+        rig = Rig(ctx.repo, lambda mods: mods['session'].RPCSession, transport=case['transport'])
+        try:
+            rig.tr.__class__ = W8.StallTransport
+            rig.tr.stalled = case['stalled']
+            curio = rig.mods['curio']
+            seen = {}
+
+            async def closer():
+                if case['outer'] is not None:
+                    async with curio.timeout_after(case['outer']):
+                        await rig.session.close(force_after=case['fa'])
+                else:
+                    await rig.session.close(force_after=case['fa'])
+                seen['close_returned'] = rig.now
+                await curio.sleep(1000)
+
+            t = rig.loop.create_task(closer())
+            rig.idle()
+            rig.advance_to(case['cancel'])
+            in_close = 'close_returned' not in seen
+            if not t.done():
+                t.cancel()
+                rig.idle()
+                rig.advance(100)
+                res.count('close_cancel_inside_close' if in_close else 'close_cancel_after_close')
+                if not (t.done() and t.cancelled()):
+                    how = ('is still running' if not t.done() else
+                           f'ended with {type(t.exception()).__name__}' if t.exception() else 'returned')
+                    res.violation('c12:close-cancel-swallowed', {'close_case': case},
+                                  f'task.cancel() at {case["cancel"]} on a task '
+                                  f'{"inside session.close()" if in_close else "after session.close() returned"}'
+                                  f' (force_after {case["fa"]}, enclosing timeout {case["outer"]}, '
+                                  f'{"stalled" if case["stalled"] else "responsive"} peer): the task {how} '
+                                  f'instead of ending cancelled')
+            res['evaluations'] += 1
+        except (vloop.Deadlock, vloop.Livelock) as e:
+            res.violation('c12:session-hang', {'close_case': case}, type(e).__name__)
+        finally:
+            rig.close()
+    res['scopes']['close_cases'] = len(cases)
+
+
 def _session_work(args):
     repo, cases = args
     out = []
@@ -615,6 +672,7 @@ def run(ctx):
         sc['kind'] = SESSION_KINDS[i]           # every kind at least once
     evaluate_sessions(ctx, scases, res)
     res['scopes']['session_cases'] = ns
+    close_family(ctx, res)
     # task groups: model language, then the wider one
     ng = (30000 if ctx.tier == "thorough" else 3000) if ctx.deep else 400
     gprogs = []
@@ -645,6 +703,9 @@ def replay(ctx, case):
     if isinstance(case.get('case'), dict):
         case = case['case']
     res = Results()
+    if 'close_case' in case:
+        close_family(ctx, res, only=case['close_case'])
+        return res.finish('replay of one recorded close() case')
     if 'session_case' in case:
         o = run_session_case(ctx.repo, case['session_case'], case.get('cancel'))
         for key, why in session_oracle(case['session_case'], case.get('cancel'), o):
